@@ -14,7 +14,7 @@ from xv.harness import graphs
 
 SHARD: dict = {}
 
-EDITS = ["explicit_default", "explicit_none", "meta_value", "meta_subconfig", "meta_subconfig_content", "tag", "token_dependency", "other_context", "meta_in_containers"]
+EDITS = ["meta_in_nested_containers", "explicit_default", "explicit_none", "meta_value", "meta_subconfig", "meta_subconfig_content", "tag", "token_dependency", "other_context", "meta_in_containers"]
 
 INFO = {
     "functions": [
@@ -84,6 +84,20 @@ def _apply(edit, nd, U, z, which):
             d = dict(nd.d)
             d["zz"] = setmeta(U.Leaf(i=z), True)
             nd.d = d
+            return True
+        return False
+    if edit == "meta_in_nested_containers":
+        if "dl" in xt.arguments and nd.__xpm__.values.get("dl"):
+            dl = {k: list(v) for k, v in nd.dl.items()}
+            dl["a"] = dl["a"] + [setmeta(U.Leaf(i=z), True)]
+            nd.dl = dl
+            nd.lls = [list(x) for x in nd.lls] + [[setmeta(U.Leaf(i=z), True)]]
+            lls = [list(x) for x in nd.lls]
+            lls[0] = [setmeta(U.Leaf(i=z), True)] + lls[0]
+            nd.lls = lls[:-1]
+            ld = [dict(x) for x in nd.ld]
+            ld[0]["zz"] = setmeta(U.Leaf(i=z), True)
+            nd.ld = ld
             return True
         return False
     if edit == "tag":
@@ -189,12 +203,16 @@ def class_edit(
 
 def conditions(tier):
     conds = []
-    sks = ["flat", "nested", "shared", "deep", "list", "dict", "cyc2", "pretask"]
+    sks = ["flat", "nested", "shared", "deep", "list", "dict", "cyc2", "pretask", "nestedcont", "marker"]
     tmo = 300 if tier == "quick" else 1200
     for sk in sks:
         nstr = graphs.SKELETONS[sk][1]
         for edit in EDITS:
             if edit == "meta_in_containers" and sk not in ("list", "dict"):
+                continue
+            if edit == "meta_in_nested_containers" and sk != "nestedcont":
+                continue
+            if sk in ("nestedcont", "marker") and edit not in ("meta_in_nested_containers", "tag", "token_dependency", "other_context", "explicit_default"):
                 continue
             if edit in ("meta_subconfig", "meta_subconfig_content") and sk not in ("nested", "shared", "deep"):
                 continue
